@@ -2436,6 +2436,41 @@ theorem contract_dispatch_wrapping_bypassed_the_old_gate :
 example : let m : Msg := { typ := "tokenfactory.ChangeAdmin", signers := [7], creator := 7, field := fun _ => none }
     wasmDispatchTop 7 (.plain m) = true ∧ wasmDispatchTop 7 (.exec 7 [.exec 7 [.plain m]]) = true := by decide
 
+/-- **deep_nesting_refused.** A transaction whose messages are wrapped in more `MsgExec` layers than the decorator unfolds is
+refused as a whole: very deep nesting is no way around the ownership check. -/
+theorem deep_nesting_refused (tops : List Top) (grants : Addr → Addr → Bool) (h : depthList tops > maxNesting) :
+    anteOkTopBounded tops grants = false := by
+  have : ¬ depthList tops ≤ maxNesting := by omega
+  simp [anteOkTopBounded, this]
+
+/-- **bounded_pass_checks_every_message.** What passes the bounded decorator passed the check on every message in scope. -/
+theorem bounded_pass_checks_every_message (tops : List Top) (grants : Addr → Addr → Bool)
+    (h : anteOkTopBounded tops grants = true) : ∀ m ∈ scopeList tops, anteOk m grants = true := by
+  simp only [anteOkTopBounded, Bool.and_eq_true, decide_eq_true_eq] at h
+  have := h.2
+  simp only [anteOkTop, anteOkTx, List.all_eq_true] at this
+  exact this
+
+theorem wrapN_depth (g : Addr) (m : Msg) (k : Nat) : (wrapN g m k).depth = k := by
+  induction k with
+  | zero => simp [wrapN, Top.depth]
+  | succ n ih => simp [wrapN, Top.depth, depthList, ih]; omega
+
+theorem wrapN_scope (g : Addr) (m : Msg) (k : Nat) : (wrapN g m k).scope = [m] := by
+  induction k with
+  | zero => simp [wrapN, Top.scope]
+  | succ n ih => simp [wrapN, Top.scope, scopeList, ih]
+
+/-- **wrapped_k_times.** A single message wrapped `k` times passes exactly when `k` is within the bound and the message itself
+passes: no number of wrappers changes the verdict on the message, and more than `maxNesting` of them are refused. -/
+theorem wrapped_k_times (g : Addr) (m : Msg) (k : Nat) (grants : Addr → Addr → Bool) :
+    anteOkTopBounded [wrapN g m k] grants = (decide (k ≤ maxNesting) && anteOk m grants) := by
+  simp [anteOkTopBounded, anteOkTop, anteOkTx, depthList, scopeList, wrapN_depth, wrapN_scope]
+
+/-- non-vacuity: six wrappers are unfolded, seven are refused -/
+example : let m : Msg := { typ := "tokenfactory.ChangeAdmin", signers := [7], creator := 7, field := fun _ => none }
+    anteOkTopBounded [wrapN 7 m 6] (fun _ _ => false) = true ∧ anteOkTopBounded [wrapN 7 m 7] (fun _ _ => false) = false := by decide
+
 
 section Examples
 
